@@ -9,8 +9,9 @@
      violates o p rule pos  :=  In (rule, pos) (viol o p)
 
    viol lists the violations in source order.  The rules whose statement needs
-   name resolution (undefined name, set, rebinding at top level, duplicate
-   parameter) are in the second part of this file (scope_viol). *)
+   name resolution (undefined name, set, rebinding at top level; duplicate
+   parameter is NOT among them: it only needs the names of the list) are in the
+   second part of this file (scope_viol). *)
 From Coq Require Import String Ascii List Bool Arith NArith.
 From SV Require Import C09.Syntax.
 Import ListNotations.
@@ -40,6 +41,8 @@ Fixpoint kinds_of (a : args) : list akind :=
   | AStarStar _ _ r => KSS :: kinds_of r
   end.
 
+Definition smem (x : string) (l : list string) : bool := existsb (String.eqb x) l.
+
 (* ---- parameter lists: what precedes a parameter ---- *)
 Inductive pkind := KReg | KOpt | KPStar | KPSS.
 Definition is_kopt (k : pkind) := match k with KOpt => true | _ => false end.
@@ -66,23 +69,63 @@ Fixpoint bare_star (ps : params) : list (rule * N) :=
   | PStarStar _ _ _ _ => []
   end.
 
-Fixpoint v_params (before : list pkind) (ps : params) : list (rule * N) :=
+(* parameter names must be distinct: `seen` = the names of the preceding ordinary parameters *)
+Fixpoint v_params (before : list pkind) (seen : list string) (ps : params) : list (rule * N) :=
   match ps with
   | PNil => []
   | PId n x r =>
       (if existsb is_kpss before then [(RParReqAfterKwargs, n)]
        else if existsb is_kpstar before then []
        else when (existsb is_kopt before) RParReqAfterOptional n)
-      ++ v_params (KReg :: before) r
+      ++ when (smem x seen) RParDuplicate n
+      ++ v_params (KReg :: before) (if smem x seen then seen else x :: seen) r
   | PDef n x d r =>
-      when (existsb is_kpss before) RParOptAfterKwargs n ++ v_params (KOpt :: before) r
+      when (existsb is_kpss before) RParOptAfterKwargs n
+      ++ when (smem x seen) RParDuplicate n
+      ++ v_params (KOpt :: before) (if smem x seen then seen else x :: seen) r
   | PStar n name r =>
       (if existsb is_kpss before then [(RParStarAfterKwargs, n)]
        else when (existsb is_kpstar before) RParMultipleStar n)
-      ++ v_params (KPStar :: before) r
+      ++ v_params (KPStar :: before) seen r
   | PStarStar n nn x r =>
-      when (existsb is_kpss before) RParMultipleKwargs n ++ v_params (KPSS :: before) r
+      when (existsb is_kpss before) RParMultipleKwargs n ++ v_params (KPSS :: before) seen r
   end.
+
+(* the names of the ordinary parameters (each once) *)
+Fixpoint regular_names (seen : list string) (ps : params) : list string :=
+  match ps with
+  | PNil => seen
+  | PId _ x r | PDef _ x _ r => regular_names (if smem x seen then seen else x :: seen) r
+  | PStar _ _ r | PStarStar _ _ _ r => regular_names seen r
+  end.
+
+(* the * parameter that counts: the first one, unless a ** precedes it *)
+Fixpoint the_star (ss_seen : bool) (ps : params) : option (N * option (N * string)) :=
+  match ps with
+  | PNil => None
+  | PId _ _ r | PDef _ _ _ r => the_star ss_seen r
+  | PStar n nm r => if ss_seen then the_star ss_seen r else Some (n, nm)
+  | PStarStar _ _ _ r => the_star true r
+  end.
+(* the ** parameter that counts: the last one *)
+Fixpoint the_ss (acc : option (N * string)) (ps : params) : option (N * string) :=
+  match ps with
+  | PNil => acc
+  | PId _ _ r | PDef _ _ _ r | PStar _ _ r => the_ss acc r
+  | PStarStar _ nn x r => the_ss (Some (nn, x)) r
+  end.
+
+(* after the ordinary parameters: *args must not repeat one of them; a bare * must be
+   followed by keyword-only parameters; **kwargs must not repeat any other name *)
+Definition v_params_tail (ps : params) : list (rule * N) :=
+  let seen := regular_names [] ps in
+  let s1 := match the_star false ps with
+            | Some (_, Some (an, ax)) =>
+                (when (smem ax seen) RParDuplicate an, if smem ax seen then seen else ax :: seen)
+            | Some (n, None) => (bare_star ps, seen)
+            | None => ([], seen)
+            end in
+  fst s1 ++ match the_ss None ps with Some (nn, x) => when (smem x (snd s1)) RParDuplicate nn | None => [] end.
 
 Fixpoint count_pos (a : args) : nat :=
   match a with
@@ -104,7 +147,7 @@ Fixpoint v_expr (c : ctx) (e : expr) {struct e} : list (rule * N) :=
       v_expr c f ++ v_args c [] a
       ++ when (256 <=? count_pos a) RArgTooManyPos n      (* the compiler's operand has 8 bits for each count *)
       ++ when (256 <=? count_named a) RArgTooManyNamed n
-  | ELambda n ps body => v_defaults c ps ++ v_params [] ps ++ bare_star ps ++ v_expr (in_body c) body
+  | ELambda n ps body => v_defaults c ps ++ v_params [] [] ps ++ v_params_tail ps ++ v_expr (in_body c) body
   | EComp n iter vars cl body => v_expr c iter ++ v_lhs c false vars ++ v_clauses c cl ++ v_expr c body
   end
 with v_exprs (c : ctx) (es : exprs) {struct es} : list (rule * N) :=
@@ -178,7 +221,7 @@ Fixpoint v_stmt (c : ctx) (s : stmt) {struct s} : list (rule * N) :=
       toplevel_gate c RIfToplevel n ++ v_expr c cnd ++ v_stmts (in_if c) t ++ v_stmts (in_if c) f
   | SAssign aug l e => v_expr c e ++ v_lhs c aug l
   | SDef n nn x ps body =>
-      v_defaults c ps ++ v_params [] ps ++ bare_star ps ++ v_stmts (in_body c) body
+      v_defaults c ps ++ v_params [] [] ps ++ v_params_tail ps ++ v_stmts (in_body c) body
   | SFor n vars iter body =>
       toplevel_gate c RForToplevel n ++ v_expr c iter ++ v_lhs c false vars ++ v_stmts (in_loop c) body
   | SWhile n cnd body =>
@@ -208,14 +251,251 @@ Definition violates (o : options) (p : program) (r : rule) (n : N) : Prop := In 
 (* the rules whose statement needs name resolution *)
 Definition scoping_rule (r : rule) : bool :=
   match r with
-  | RReassign | RLoadReassign | RSetUnsupported | RUndefined | RParDuplicate => true
+  | RReassign | RLoadReassign | RSetUnsupported | RUndefined => true
   | _ => false
   end.
+
+
+(* ------------------------------------------------------------------------
+   Second part: the rules that need name resolution, as an executable oracle
+   (used by the check; no theorem is proved about it).
+
+   doc/spec.md, "Name binding and variables": a name is local to the innermost
+   function (or comprehension) that binds it anywhere in its body; otherwise it
+   refers to a file-local (load) or global binding of the module, made anywhere
+   in the file; otherwise to a predeclared or universal name; otherwise it is
+   undefined.  A global may be bound once (unless GlobalReassign).  With
+   GlobalReassign a use at file level sees only what is bound so far (the
+   legacy semantics the option carries).  `set` needs the Set option. *)
+Fixpoint lhs_names (l : lhs) : list string :=
+  match l with
+  | LId _ x => [x]
+  | LSeq _ ls => lhss_names ls
+  | _ => []
+  end
+with lhss_names (ls : lhss) : list string :=
+  match ls with LNil => [] | LCons l r => lhs_names l ++ lhss_names r end.
+
+(* names bound directly in a container: not entering nested functions / comprehensions *)
+Fixpoint bound_stmt (s : stmt) : list string :=
+  match s with
+  | SAssign _ l _ => lhs_names l
+  | SDef _ _ x _ _ => [x]
+  | SFor _ vars _ body => lhs_names vars ++ bound_stmts body
+  | SIf _ _ t f => bound_stmts t ++ bound_stmts f
+  | SWhile _ _ body => bound_stmts body
+  | SLoad _ items => map (fun it => match it with (_, _, _, to) => to end) items
+  | _ => []
+  end
+with bound_stmts (ss : stmts) : list string :=
+  match ss with SNil => [] | SCons s r => bound_stmt s ++ bound_stmts r end.
+
+Fixpoint param_names (ps : params) : list string :=
+  match ps with
+  | PNil => []
+  | PId _ x r | PDef _ x _ r => x :: param_names r
+  | PStar _ (Some (_, x)) r => x :: param_names r
+  | PStar _ None r => param_names r
+  | PStarStar _ _ x r => x :: param_names r
+  end.
+
+Fixpoint clause_names (cl : clauses) : list string :=
+  match cl with
+  | CNil => []
+  | CFor vars _ r => lhs_names vars ++ clause_names r
+  | CIf _ r => clause_names r
+  end.
+
+(* duplicate parameters: ordinary parameters are bound in order, then *args, then **kwargs *)
+Fixpoint dup_regular (seen : list string) (ps : params) : list (rule * N) * list string :=
+  match ps with
+  | PNil => ([], seen)
+  | PId n x r | PDef n x _ r =>
+      let d := dup_regular (if smem x seen then seen else x :: seen) r in
+      (when (smem x seen) RParDuplicate n ++ fst d, snd d)
+  | PStar _ _ r | PStarStar _ _ _ r => dup_regular seen r
+  end.
+(* the recorded star is the first one not preceded by **; the recorded ** is the last one *)
+Fixpoint first_star (ss_seen : bool) (ps : params) : option (N * string) :=
+  match ps with
+  | PNil => None
+  | PId _ _ r | PDef _ _ _ r => first_star ss_seen r
+  | PStar _ nm r => if ss_seen then first_star ss_seen r else nm
+  | PStarStar _ _ _ r => first_star true r
+  end.
+Fixpoint last_ss (acc : option (N * string)) (ps : params) : option (N * string) :=
+  match ps with
+  | PNil => acc
+  | PId _ _ r | PDef _ _ _ r | PStar _ _ r => last_ss acc r
+  | PStarStar _ nn x r => last_ss (Some (nn, x)) r
+  end.
+Definition dup_params (ps : params) : list (rule * N) :=
+  let d := dup_regular [] ps in
+  let seen := snd d in
+  let s1 := match first_star false ps with
+            | Some (an, ax) => (when (smem ax seen) RParDuplicate an, if smem ax seen then seen else ax :: seen)
+            | None => ([], seen)
+            end in
+  fst d ++ fst s1 ++
+  match last_ss None ps with Some (nn, x) => when (smem x (snd s1)) RParDuplicate nn | None => [] end.
+
+Section Scope.
+Variable o : options.
+Variable W : world.
+Variable complete : list string.      (* every name bound at file level anywhere in the module *)
+
+(* fl = Some sofar: a use at file level under GlobalReassign sees only `sofar` *)
+Definition use_viol (env : list (list string)) (fl : option (list string)) (n : N) (x : string) : list (rule * N) :=
+  if existsb (smem x) env then []
+  else if smem x (match fl with Some sofar => sofar | None => complete end) then []
+  else if smem x (w_predeclared W) then []
+  else if smem x (w_universal W) then when (negb (o_set o) && String.eqb x "set") RSetUnsupported n
+  else [(RUndefined, n)].
+
+Fixpoint s_expr (env : list (list string)) (fl : option (list string)) (e : expr) {struct e} : list (rule * N) :=
+  match e with
+  | EId n x => use_viol env fl n x
+  | ELit => []
+  | EOp es => s_exprs env fl es
+  | ECall _ f a => s_expr env fl f ++ s_args env fl a
+  | ELambda _ ps body => s_defaults env fl ps ++ dup_params ps ++ s_expr (param_names ps :: env) None body
+  | EComp _ iter vars cl body =>
+      let env' := (lhs_names vars ++ clause_names cl) :: env in
+      s_expr env fl iter ++ s_lhs env' None vars ++ s_clauses env' cl ++ s_expr env' None body
+  end
+with s_exprs (env : list (list string)) (fl : option (list string)) (es : exprs) {struct es} : list (rule * N) :=
+  match es with ENil => [] | ECons e r => s_expr env fl e ++ s_exprs env fl r end
+with s_args (env : list (list string)) (fl : option (list string)) (a : args) {struct a} : list (rule * N) :=
+  match a with
+  | ANil => []
+  | APos _ e r | ANamed _ _ e r | AStar _ e r | AStarStar _ e r => s_expr env fl e ++ s_args env fl r
+  end
+with s_defaults (env : list (list string)) (fl : option (list string)) (ps : params) {struct ps} : list (rule * N) :=
+  match ps with
+  | PNil => []
+  | PId _ _ r | PStar _ _ r | PStarStar _ _ _ r => s_defaults env fl r
+  | PDef _ _ d r => s_expr env fl d ++ s_defaults env fl r
+  end
+with s_clauses (env : list (list string)) (cl : clauses) {struct cl} : list (rule * N) :=
+  match cl with
+  | CNil => []
+  | CFor vars iter r => s_lhs env None vars ++ s_expr env None iter ++ s_clauses env r
+  | CIf c r => s_expr env None c ++ s_clauses env r
+  end
+(* the uses inside an assignment target (x[i] = .., x.f = ..) *)
+with s_lhs (env : list (list string)) (fl : option (list string)) (l : lhs) {struct l} : list (rule * N) :=
+  match l with
+  | LId _ _ => []
+  | LSeq _ ls => s_lhss env fl ls
+  | LExpr es => s_exprs env fl es
+  | LBad _ => []
+  end
+with s_lhss (env : list (list string)) (fl : option (list string)) (ls : lhss) {struct ls} : list (rule * N) :=
+  match ls with LNil => [] | LCons l r => s_lhs env fl l ++ s_lhss env fl r end.
+
+(* statements inside a function: every binding is local, nothing is rebinding *)
+Fixpoint s_stmt (env : list (list string)) (s : stmt) {struct s} : list (rule * N) :=
+  match s with
+  | SExpr e => s_expr env None e
+  | SBranch _ => []
+  | SIf _ c t f => s_expr env None c ++ s_stmts env t ++ s_stmts env f
+  | SAssign _ l e => s_expr env None e ++ s_lhs env None l
+  | SDef _ _ _ ps body =>
+      s_defaults env None ps ++ dup_params ps ++ s_stmts ((param_names ps ++ bound_stmts body) :: env) body
+  | SFor _ vars iter body => s_expr env None iter ++ s_lhs env None vars ++ s_stmts env body
+  | SWhile _ c body => s_expr env None c ++ s_stmts env body
+  | SReturn _ e => match e with Some e => s_expr env None e | None => [] end
+  | SLoad _ _ => []
+  end
+with s_stmts (env : list (list string)) (ss : stmts) {struct ss} : list (rule * N) :=
+  match ss with SNil => [] | SCons s r => s_stmt env s ++ s_stmts env r end.
+
+(* file level: g = globals bound so far, f = load-bound file-locals so far *)
+Definition fl_of (g f : list string) : option (list string) :=
+  if o_global_reassign o then Some (g ++ f) else None.
+
+Fixpoint t_bind (g f : list string) (l : lhs) : list (rule * N) * list string :=
+  match l with
+  | LId n x =>
+      if smem x f || smem x g then (when (negb (o_global_reassign o)) RReassign n, g) else ([], g ++ [x])
+  | LSeq _ ls => t_binds g f ls
+  | _ => ([], g)
+  end
+with t_binds (g f : list string) (ls : lhss) : list (rule * N) * list string :=
+  match ls with
+  | LNil => ([], g)
+  | LCons l r => let a := t_bind g f l in let b := t_binds (snd a) f r in (fst a ++ fst b, snd b)
+  end.
+
+Fixpoint t_load (g f : list string) (items : list (N * string * N * string)) : list (rule * N) * (list string * list string) :=
+  match items with
+  | [] => ([], (g, f))
+  | (_, _, tn, to) :: r =>
+      if o_load_binds_globally o then
+        let a := t_bind g f (LId tn to) in
+        let b := t_load (snd a) f r in (fst a ++ fst b, snd b)
+      else if smem to f then
+        let b := t_load g f r in (when (negb (o_global_reassign o)) RLoadReassign tn ++ fst b, snd b)
+      else t_load g (f ++ [to]) r
+  end.
+
+Fixpoint t_stmt (g f : list string) (s : stmt) {struct s} : list (rule * N) * (list string * list string) :=
+  match s with
+  | SExpr e => (s_expr [] (fl_of g f) e, (g, f))
+  | SBranch _ => ([], (g, f))
+  | SIf _ c t e =>
+      let a := t_stmts g f t in
+      let b := t_stmts (fst (snd a)) (snd (snd a)) e in
+      (s_expr [] (fl_of g f) c ++ fst a ++ fst b, snd b)
+  | SAssign _ l e =>
+      let u := s_expr [] (fl_of g f) e in
+      let b := t_bind g f l in
+      (u ++ s_lhs [] (fl_of g f) l ++ fst b, (snd b, f))
+  | SDef _ nn x ps body =>
+      let b := t_bind g f (LId nn x) in
+      (fst b ++ s_defaults [] (fl_of (snd b) f) ps ++ dup_params ps
+       ++ s_stmts [param_names ps ++ bound_stmts body] body, (snd b, f))
+  | SFor _ vars iter body =>
+      let u := s_expr [] (fl_of g f) iter in
+      let b := t_bind g f vars in
+      let c := t_stmts (snd b) f body in
+      (u ++ s_lhs [] (fl_of g f) vars ++ fst b ++ fst c, snd c)
+  | SWhile _ c body =>
+      let b := t_stmts g f body in (s_expr [] (fl_of g f) c ++ fst b, snd b)
+  | SReturn _ e => (match e with Some e => s_expr [] (fl_of g f) e | None => [] end, (g, f))
+  | SLoad _ items => t_load g f items
+  end
+with t_stmts (g f : list string) (ss : stmts) {struct ss} : list (rule * N) * (list string * list string) :=
+  match ss with
+  | SNil => ([], (g, f))
+  | SCons s r =>
+      let a := t_stmt g f s in
+      let b := t_stmts (fst (snd a)) (snd (snd a)) r in (fst a ++ fst b, snd b)
+  end.
+
+End Scope.
+
+Definition scope_viol (o : options) (W : world) (p : program) : list (rule * N) :=
+  fst (t_stmts o W (bound_stmts p) [] [] p).
 
 Definition err_eqb (a b : rule * N) : bool := rule_eqb (fst a) (fst b) && N.eqb (snd a) (snd b).
 Fixpoint list_eqb {X} (f : X -> X -> bool) (a b : list X) : bool :=
   match a, b with [], [] => true | x :: r, y :: s => f x y && list_eqb f r s | _, _ => false end.
 
-(* used by the check: do the errors the resolver reported agree with the rules? *)
+Definition only (r : rule) (l : list (rule * N)) : list (rule * N) := filter (fun e => rule_eqb (fst e) r) l.
+Definition subset (a b : list (rule * N)) : bool := forallb (fun e => existsb (err_eqb e) b) a.
+Definition nil_iff (a b : list (rule * N)) : bool := match a, b with [], [] => true | _ :: _, _ :: _ => true | _, _ => false end.
+
+(* used by the check: do the errors the resolver reported agree with the rules?
+   - rules that need no name resolution: the same list, in order;
+   - rebinding and duplicate-parameter rules: the same set;
+   - undefined / set: the resolver reports a use at most once per name and
+     top-level block (lookupLexical memoises): every report is a violation, and
+     there is a report iff there is a violation. *)
 Definition spec_agrees (o : options) (W : world) (p : program) (obs : list (rule * N)) : bool :=
-  list_eqb err_eqb (filter (fun e => negb (scoping_rule (fst e))) obs) (viol o p).
+  let sv := scope_viol o W p in
+  list_eqb err_eqb (filter (fun e => negb (scoping_rule (fst e))) obs) (viol o p)
+  && forallb (fun r => subset (only r obs) (only r sv) && subset (only r sv) (only r obs))
+             [RReassign; RLoadReassign]
+  && forallb (fun r => subset (only r obs) (only r sv) && nil_iff (only r obs) (only r sv))
+             [RUndefined; RSetUnsupported].
